@@ -187,6 +187,27 @@ func ruleR05c(c *Check, rule string) {
 	// A direct call of the cancel function is a cancellation; a statically resolved first-party helper is
 	// decided by its own paths (callee summary); any other site (go statement, closure, dynamic call) counts
 	// when it can reach the cancel function.
+	// alwaysCancels: a first-party helper every path of which passes a call of the cancel function (a thin
+	// method that forwards to the registry that owns the channels, say)
+	var alwaysCancels func(h *ssa.Function, depth int) bool
+	alwaysCancels = func(h *ssa.Function, depth int) bool {
+		if h == w.CancelNode {
+			return true
+		}
+		if depth > 2 || len(h.Blocks) == 0 {
+			return false
+		}
+		inner := func(in ssa.Instruction) bool {
+			call, ok := in.(*ssa.Call)
+			if !ok {
+				return false
+			}
+			g := call.Call.StaticCallee()
+			return g != nil && g != h && alwaysCancels(g, depth+1)
+		}
+		reach, _ := engine.PathExists(h, nil, func(in ssa.Instruction) bool { _, r := in.(*ssa.Return); return r && in.Parent() == h }, engine.PathQuery{CutInstr: inner, Shallow: true})
+		return !reach
+	}
 	isCancel := func(in ssa.Instruction) bool {
 		cs, ok := in.(ssa.CallInstruction)
 		if !ok {
@@ -194,7 +215,7 @@ func ruleR05c(c *Check, rule string) {
 		}
 		if call, ok := in.(*ssa.Call); ok {
 			if h := call.Call.StaticCallee(); h != nil && len(h.Blocks) > 0 {
-				return h == w.CancelNode
+				return alwaysCancels(h, 0)
 			}
 		}
 		callees := c.G.CalleesOf(cs)
